@@ -449,9 +449,14 @@ func translate(l *load.Loaded, pkg *packages.Package, h *helper, s *site, n int,
 	mode := "generic"
 	var contIf *ast.IfStmt // the if statement whose branches continue after a return
 	var contVar string     // the error variable of the idiom
-	contDefine := false    // the error variable is defined by the statement
-	contNeg := false       // bool idiom: the condition is !h(...)
-	stmtEnd := stmt.End()  // end of the replaced source range
+	var lhsNames []string  // errAssignIf: the variables the results are assigned to
+	type newVar struct {
+		name string
+		res  int
+	}
+	var newVars []newVar  // errAssignIf: variables the statement declares (name, index of the result that types it)
+	contNeg := false      // bool idiom: the condition is !h(...)
+	stmtEnd := stmt.End() // end of the replaced source range
 	list := stmtList(s.stack[si-1])
 	switch st := stmt.(type) {
 	case *ast.ReturnStmt:
@@ -461,9 +466,15 @@ func translate(l *load.Loaded, pkg *packages.Package, h *helper, s *site, n int,
 	case *ast.IfStmt:
 		if wrap && direct && nres == 1 && st.Else == nil {
 			as := st.Init.(*ast.AssignStmt)
-			if len(as.Lhs) == 1 && as.Tok == token.DEFINE {
-				if id, ok := as.Lhs[0].(*ast.Ident); ok && isNotNil(st.Cond, id.Name) && isErrorType(sig.Results().At(0).Type()) {
-					mode, contIf, contVar = "errIf", st, id.Name
+			if len(as.Lhs) == 1 {
+				if id, ok := as.Lhs[0].(*ast.Ident); ok && id.Name != "_" && isNotNil(st.Cond, id.Name) && isErrorType(sig.Results().At(0).Type()) {
+					if as.Tok == token.DEFINE {
+						mode, contIf, contVar = "errIf", st, id.Name
+					} else {
+						// if err = h(...); err != nil {B}: the assignment is to a variable of the enclosing scope
+						mode, contIf, contVar = "errAssignIf", st, id.Name
+						lhsNames = []string{id.Name}
+					}
 				}
 			}
 		}
@@ -477,13 +488,33 @@ func translate(l *load.Loaded, pkg *packages.Package, h *helper, s *site, n int,
 		}
 	case *ast.AssignStmt:
 		// err = h(...)  /  err := h(...)   followed by   if err != nil { ... }
-		if direct && nres == 1 && len(st.Lhs) == 1 && isErrorType(sig.Results().At(0).Type()) {
-			if id, ok := st.Lhs[0].(*ast.Ident); ok && id.Name != "_" {
+		// v, err := h(...)  /  err = h(...)   followed by   if err != nil { ... }   (the last result is the error)
+		if direct && nres >= 1 && len(st.Lhs) == nres && isErrorType(sig.Results().At(nres-1).Type()) {
+			allIdents := true
+			var names []string
+			for _, l := range st.Lhs {
+				id, ok := l.(*ast.Ident)
+				if !ok {
+					allIdents = false
+					break
+				}
+				names = append(names, id.Name)
+			}
+			if allIdents && names[nres-1] != "_" {
 				for i, x := range list {
 					if x == ast.Stmt(st) && i+1 < len(list) {
-						if nx, ok := list[i+1].(*ast.IfStmt); ok && nx.Init == nil && nx.Else == nil && isNotNil(nx.Cond, id.Name) {
-							mode, contIf, contVar, contDefine = "errAssignIf", nx, id.Name, st.Tok == token.DEFINE
+						if nx, ok := list[i+1].(*ast.IfStmt); ok && nx.Init == nil && nx.Else == nil && isNotNil(nx.Cond, names[nres-1]) {
+							mode, contIf, contVar = "errAssignIf", nx, names[nres-1]
+							lhsNames = names
 							stmtEnd = nx.End()
+							if st.Tok == token.DEFINE {
+								for k, l := range st.Lhs {
+									id := l.(*ast.Ident)
+									if id.Name != "_" && info.Defs[id] != nil {
+										newVars = append(newVars, newVar{id.Name, k})
+									}
+								}
+							}
 						}
 					}
 				}
@@ -655,12 +686,25 @@ func translate(l *load.Loaded, pkg *packages.Package, h *helper, s *site, n int,
 			return nil, "method call without selector"
 		}
 		selection := info.Selections[sel]
-		if selection == nil || selection.Kind() != types.MethodVal || len(selection.Index()) != 1 {
-			return nil, "method reached through embedding or a method expression"
+		if selection == nil || selection.Kind() != types.MethodVal {
+			return nil, "method expression"
 		}
 		rt := recv.Type()
 		xt := info.TypeOf(sel.X)
 		val := text(csrc, sel.X.Pos(), sel.X.End())
+		// a method promoted through embedded fields: spell the path out
+		for _, fi := range selection.Index()[:len(selection.Index())-1] {
+			t := xt
+			if pt, ok := t.Underlying().(*types.Pointer); ok {
+				t = pt.Elem()
+			}
+			st, ok := t.Underlying().(*types.Struct)
+			if !ok || fi >= st.NumFields() {
+				return nil, "embedding path not resolvable"
+			}
+			val = "(" + val + ")." + st.Field(fi).Name()
+			xt = st.Field(fi).Type()
+		}
 		_, rptr := rt.(*types.Pointer)
 		_, xptr := xt.Underlying().(*types.Pointer)
 		if rptr && !xptr {
@@ -791,26 +835,34 @@ func translate(l *load.Loaded, pkg *packages.Package, h *helper, s *site, n int,
 			case mode == "tail":
 				return false // a return of the helper is a return of the caller
 			case mode == "errIf" || mode == "errAssignIf" || mode == "boolIf":
-				e := strings.TrimSpace(text(hsrc, x.Results[0].Pos(), x.Results[0].End()))
+				last := x.Results[len(x.Results)-1]
+				e := strings.TrimSpace(text(hsrc, last.Pos(), last.End()))
+				if len(x.Results) != nres {
+					e = "?" // return f(): the error value is not known
+				}
 				k := len(sections)
 				lab := fmt.Sprintf("%s_%d", label, k)
-				t = "{ " + resVars[0] + " = " + e + "; goto " + lab + " }"
+				var rs []string
+				for _, re := range x.Results {
+					rs = append(rs, text(hsrc, re.Pos(), re.End()))
+				}
+				t = "{ " + strings.Join(resVars, ", ") + " = " + strings.Join(rs, ", ") + "; goto " + lab + " }"
 				var sec string
 				switch mode {
 				case "errIf":
 					switch {
 					case e == "nil":
-					case guardedRet[x] || nonNilError(x.Results[0], hinfo):
+					case guardedRet[x] || nonNilError(last, hinfo):
 						// the error value is known not to be nil: the branch is taken unconditionally
 						sec = "{\n" + contVar + " := " + resVars[0] + "\n_ = " + contVar + "\n" + text(csrc, contIf.Body.Pos(), contIf.Body.End()) + "\n}\n"
 					default:
 						sec = "if " + contVar + " := " + resVars[0] + "; " + contVar + " != nil " + text(csrc, contIf.Body.Pos(), contIf.Body.End()) + "\n"
 					}
 				case "errAssignIf":
-					sec = contVar + " = " + resVars[0] + "\n"
+					sec = strings.Join(lhsNames, ", ") + " = " + strings.Join(resVars, ", ") + "\n"
 					switch {
 					case e == "nil":
-					case guardedRet[x] || nonNilError(x.Results[0], hinfo):
+					case e != "?" && (guardedRet[x] || nonNilError(last, hinfo)):
 						sec += text(csrc, contIf.Body.Pos(), contIf.Body.End()) + "\n"
 					default:
 						sec += "if " + contVar + " != nil " + text(csrc, contIf.Body.Pos(), contIf.Body.End()) + "\n"
@@ -879,10 +931,12 @@ func translate(l *load.Loaded, pkg *packages.Package, h *helper, s *site, n int,
 		}
 	}
 	if len(sections) > 0 {
-		fmt.Fprintf(&sb, "var %s %s\n_ = %s\n", resVars[0], typeStr(sig.Results().At(0).Type()), resVars[0])
+		for i := 0; i < nres; i++ {
+			fmt.Fprintf(&sb, "var %s %s\n_ = %s\n", resVars[i], typeStr(sig.Results().At(i).Type()), resVars[i])
+		}
 	}
-	if mode == "errAssignIf" && contDefine {
-		fmt.Fprintf(&sb, "var %s %s\n_ = %s\n", contVar, typeStr(sig.Results().At(0).Type()), contVar)
+	for _, nv := range newVars {
+		fmt.Fprintf(&sb, "var %s %s\n_ = %s\n", nv.name, typeStr(sig.Results().At(nv.res).Type()), nv.name)
 	}
 	sb.WriteString("{\n")
 	if len(names) > 0 {
